@@ -156,7 +156,13 @@ struct YearlyMaxCosts {
 fn calc_yearly_max_cost_day(max_day_costs: &MaxDayCosts) -> YearlyMaxCosts {
     let mut max_cost_day_for_year = HashMap::<i32, Date>::new();
 
-    for (day, day_cost) in &max_day_costs.max_costs_by_day {
+    // Visit days in chronological order, so that when several days of a year
+    // share the maximum total, the earliest one is reported (rather than
+    // whichever the map happens to yield first in this process).
+    let mut sorted_days: Vec<&Date> = max_day_costs.max_costs_by_day.keys().collect();
+    sorted_days.sort();
+    for day in sorted_days {
+        let day_cost = max_day_costs.max_costs_by_day.get(day).unwrap();
         match max_cost_day_for_year.get(&day.year()) {
             Some(old_date) => {
                 let old_date_cost =
